@@ -161,6 +161,16 @@ func runHistory(suite ref.Suite, inSession bool, steps []step, seed uint64, draw
 			budget = 1 // the context ends while the stray is being read
 		}
 		ctx, cancel := w.Ctx(budget)
+		if (draw+i)%2 == 0 {
+			// the caller's context also has a deadline, closer than one attempt
+			// timeout (an hour here) but far beyond this call
+			var cancelDeadline context.CancelFunc
+			ctx, cancelDeadline = context.WithTimeout(ctx, time.Minute)
+			defer cancelDeadline()
+			if st.Fault != "" {
+				ev.Label("deadline-within-one-attempt-timeout:" + st.Fault)
+			}
+		}
 		code, err := cn.SendCommand(ctx, call.Cmd)
 		cancel()
 		sends := w.Net.Sends - start
@@ -567,7 +577,7 @@ func TestUDPStaleBehindReply(t *testing.T) {
 func TestCoverage(t *testing.T) {
 	need := []string{"pairs-complete", "neighbour-operations-complete", "high-level-methods-complete", "high-level:ChassisControl", "high-level:Close", "udp:stale-reply-behind-the-right-one"}
 	for _, f := range faults {
-		need = append(need, "foreign-head:"+f+":inSession=true", "foreign-head:"+f+":inSession=false")
+		need = append(need, "foreign-head:"+f+":inSession=true", "foreign-head:"+f+":inSession=false", "deadline-within-one-attempt-timeout:"+f)
 	}
 	ev.RequireLabels(t, 1, need...)
 }
